@@ -231,6 +231,11 @@ def exprRun (w : Nat) (toks : List String) : Option String :=
           | ["x", v], st => match v.toInt? with | some v => push (Expr.var v) st | none => none
           | ["add"], b :: a :: st => push (Expr.add a b) st
           | ["mul"], b :: a :: st => push (Expr.mul a b) st
+          | ["mulv"], b :: a :: st => push (Expr.mul a b) st
+          | ["prodof", i], a :: st =>
+            match i.toInt? with
+            | some i => push ((Expr.prodOf a i).getD a) st
+            | none => none
           | ["neg"], a :: st => push (Expr.neg a) st
           | ["half"], a :: st => push ((Expr.half a).getD a) st
           | ["norm"], a :: st => push (Expr.normalize a) st
